@@ -38,13 +38,23 @@ class World:
 
     def __init__(self, nq):
         import qib
-        self.qf = qib.field.Field(qib.field.ParticleType.QUBIT, qib.lattice.IntegerLattice((max(nq, 1),), pbc=False))
+        # registers of even size >= 4 are split over TWO qubit fields (qubits 0..n1-1 in the first, the rest in the
+        # second), so that controls / targets / auxiliary qubits of one gate live on different fields
+        self.n1 = nq // 2 if (nq >= 4 and nq % 2 == 0) else max(nq, 1)
+        self.qf = qib.field.Field(qib.field.ParticleType.QUBIT, qib.lattice.IntegerLattice((self.n1,), pbc=False))
         self.fields = {"q": self.qf}
         self.order = [self.qf]
+        self.qf2 = None
+        if nq > self.n1:
+            self.qf2 = qib.field.Field(qib.field.ParticleType.QUBIT, qib.lattice.IntegerLattice((nq - self.n1,), pbc=False))
+            self.fields["q2"] = self.qf2
+            self.order.append(self.qf2)
 
     def q(self, i):
         import qib
-        return qib.field.Qubit(self.qf, i)
+        if i < self.n1:
+            return qib.field.Qubit(self.qf, i)
+        return qib.field.Qubit(self.qf2, i - self.n1)
 
     def opfield(self, fid, n, fermi):
         import qib
@@ -106,7 +116,11 @@ def build(spec, world):
             return {"Rxx": qib.RxxGate, "Ryy": qib.RyyGate, "Rzz": qib.RzzGate}[nm](P[0], q[0], q[1])
         raise ValueError(nm)
     if k == "ctrl":
-        g = qib.ControlledGate(build(spec["g"], world), len(spec["pat"]), list(spec["pat"]))
+        if spec.get("default_state"):      # ctrl_state omitted: documented default = active on all ones
+            assert all(b == 1 for b in spec["pat"])
+            g = qib.ControlledGate(build(spec["g"], world), len(spec["pat"]))
+        else:
+            g = qib.ControlledGate(build(spec["g"], world), len(spec["pat"]), list(spec["pat"]))
         if spec["cq"] is not None:
             g.set_control([world.q(i) for i in spec["cq"]])
         return g
@@ -340,6 +354,10 @@ def gen_cases(ctx):
     specs.append({"k": "mux", "nc": 1, "cq": [0],
                   "gs": [{"k": "ctrl", "pat": [0, 1], "cq": [1, 2], "g": {"k": "leaf", "name": "S", "q": [3]}},
                          {"k": "ctrl", "pat": [1, 0], "cq": [1, 2], "g": {"k": "leaf", "name": "H", "q": [3]}}]})
+    # ctrl_state omitted (documented default: active when all controls are 1), 1-3 controls, asymmetric target
+    for nc in (1, 2, 3):
+        specs.append({"k": "ctrl", "pat": [1] * nc, "default_state": True, "cq": list(range(1, nc + 1)),
+                      "g": {"k": "leaf", "name": "S", "q": [0]}})
     # degenerate sizes: 0 controls (controlled gate = its target, multiplexer of one target), also nested
     specs.append({"k": "ctrl", "pat": [], "cq": [], "g": {"k": "leaf", "name": "S", "q": [0]}})
     specs.append({"k": "mux", "nc": 0, "cq": [], "gs": [{"k": "leaf", "name": "Y", "q": [0]}]})
@@ -407,15 +425,20 @@ class Term:
             ps += [qib.field.Particle(f, i) for i in range(f.lattice.nsites)]
         return ps
 
-    def term(self, g):
+    def term(self, g, spec=None):
+        """spec (when given) is the description the gate was built from: control patterns, numbers of controls and
+        the order of multiplexer targets are taken from it (what was asked for), not from the object's attributes"""
         import qib
         from scipy.linalg import sqrtm
         T = type(g).__name__
         if T == "ControlledGate":
-            return "(Ctrl %s %s %s)" % (ct.bits(g.ctrl_state), self.nums(g.control_qubits), self.term(g.target_gate()))
+            ok = spec is not None and spec.get("k") == "ctrl"
+            pat = spec["pat"] if ok else g.ctrl_state
+            return "(Ctrl %s %s %s)" % (ct.bits(pat), self.nums(g.control_qubits), self.term(g.target_gate(), spec["g"] if ok else None))
         if T == "MultiplexedGate":
-            return "(Mux %s %s %s)" % (ct.nat(g.num_controls), self.nums(g.control_qubits),
-                                       ct.lst([self.term(t) for t in g.target_gates()]))
+            ok = spec is not None and spec.get("k") == "mux" and len(spec["gs"]) == len(g.target_gates())
+            return "(Mux %s %s %s)" % (ct.nat(spec["nc"] if ok else g.num_controls), self.nums(g.control_qubits),
+                                       ct.lst([self.term(t, spec["gs"][i] if ok else None) for i, t in enumerate(g.target_gates())]))
         if self.exact or T not in ("BlockEncodingGate", "TimeEvolutionGate", "PrepareGate", "GeneralGate"):
             if T == "GeneralGate":
                 return "(Gen %s %s %s %s)" % (ct.nat(g.num_wires), self.mat(g.as_matrix()), ct.b(g.is_hermitian()),
@@ -473,12 +496,15 @@ def bits_of(k, n):
     return [(k >> (n - 1 - j)) & 1 for j in range(n)]
 
 
-def ref_matrix(g):
-    """independent reference for the composite structure (leaves = what the leaves report)"""
+def ref_matrix(g, spec=None):
+    """independent reference for the composite structure (leaves = what the leaves report); control patterns and
+    numbers of controls come from the description the gate was built from when it is given"""
     T = type(g).__name__
     if T == "ControlledGate":
-        U = ref_matrix(g.target_gate())
-        nc, pat = g.num_controls, [int(b) for b in g.ctrl_state]
+        ok = spec is not None and spec.get("k") == "ctrl"
+        U = ref_matrix(g.target_gate(), spec["g"] if ok else None)
+        pat = [int(b) for b in (spec["pat"] if ok else g.ctrl_state)]
+        nc = len(pat)
         nt = int(round(math.log2(U.shape[0])))
         N = 2 ** (nc + nt)
         M = np.zeros((N, N), dtype=complex)
@@ -492,9 +518,10 @@ def ref_matrix(g):
                     M[r, c] = 1.0 if r == c else 0.0
         return M
     if T == "MultiplexedGate":
-        Us = [ref_matrix(t) for t in g.target_gates()]
+        ok = spec is not None and spec.get("k") == "mux" and len(spec["gs"]) == len(g.target_gates())
+        Us = [ref_matrix(t, spec["gs"][i] if ok else None) for i, t in enumerate(g.target_gates())]
         d = Us[0].shape[0]
-        N = d * 2 ** g.num_controls
+        N = d * 2 ** (spec["nc"] if ok else g.num_controls)
         M = np.zeros((N, N), dtype=complex)
         for r in range(N):
             for c in range(N):
@@ -537,7 +564,7 @@ def oracle(ctx, pid, spec, g, world, fail):
         if not g.is_unitary():
             fail("is_unitary:false:" + kind, True, False)
     if pid == "C02":
-        R = ref_matrix(g)
+        R = ref_matrix(g, spec)
         if maxerr(U, R) > TOL:
             fail("as_matrix:differs-from-bitwise-reference:" + kind, "U on the control pattern (MSB first) / k-th block", maxerr(U, R))
         for s in walk(g):
@@ -783,7 +810,7 @@ def check_tree(ctx, pid, spec, cases_zi, cases_fi, only_oracle=False):
         exact = tree_is_exact(g)
         T = Term(world, exact)
         inv = g.inverse()
-        term = T.term(g)
+        term = T.term(g, spec)
         U, Ui = dense(g.as_matrix()), dense(inv.as_matrix())
         # particles are compared for C03 only (they are not part of the other three properties)
         parts = particles_or_none(g, world) if pid == "C03" else None
@@ -796,11 +823,14 @@ def check_tree(ctx, pid, spec, cases_zi, cases_fi, only_oracle=False):
         return
     (cases_zi if exact else cases_fi).append((("zcase " if exact else "fcase ") + " ".join(args), desc))
     ctx.count("exact" if exact else "float")
-    if depth_of(spec) >= 2:
+    claims = bool(g.is_hermitian())
+    ctx.count("tree_claims_hermitian" if claims else "tree_claims_not_hermitian")
+    # C16 is about the trees that CLAIM to be Hermitian: only those count as non-trivial there
+    if depth_of(spec) >= 2 and (pid != "C16" or claims):
         ctx.nontriv(repr(spec)[:4000])
-    if depth_of(spec) >= 3 or len(ctx.samples) < 2:
-        ctx.sample({"kinds": kinds[:12], "wires": g.num_wires, "depth": depth_of(spec), "exact": exact,
-                    "spec": spec if count_nodes(spec) <= 6 else "(large)"})
+    if (depth_of(spec) >= 3 and (pid != "C16" or claims)) or len(ctx.samples) < 4:
+        ctx.sample({"kinds": kinds[:12], "wires": g.num_wires, "depth": depth_of(spec), "exact": exact, "claims_hermitian": claims,
+                    "spec": spec if count_nodes(spec) <= 6 else "(large)"}, cap=5)
 
 
 ASSUME = {"sqrtm": [0, 0], "qr": [0, 0]}
@@ -847,12 +877,14 @@ def run(ctx, pid):
         "matrix exponential, for which 'exp of anti-Hermitian is unitary' and 'exp(A^dagger) = exp(A)^dagger' are background "
         "mathematics (hypotheses of the theorems, not proved); np.allclose(a,b) = all |a-b| <= atol + rtol|b|")
     ctx.assumes.append("gate leaves are abstract: the nesting theorems assume each elementary leaf is unitary, its inverse() reports the "
-                       "adjoint and its Hermiticity flag is sound (that is the elementary part of " + pid + ")")
+                       "adjoint and its Hermiticity flag is sound (that is the elementary part of " + pid + "); coq/props/C01t.v (compiled by "
+                       "./check C01) discharges these hypotheses for every elementary class from the regenerated templates, at all real parameters")
     ctx.rules.append(
         "composite: all control patterns with <= %d controls; random gate trees through the public API (depth <= 4, <= %d wires, "
         "controlled / multiplexed (1-3 controls) / block-encoding (3 methods, random Hermitian H, norm < 1) / time evolution / "
         "prepare (negative, zero entries) / general / elementary leaves, bound and unbound particles); GeneralGate matrices around "
-        "the allclose tolerances. non-trivial = tree of depth >= 2, or a distinct tolerance case" % ((5, 6) if ctx.thorough else (4, 5)))
+        "the allclose tolerances; 0-control controlled gates and 1-target multiplexers. non-trivial = tree of depth >= 2 (for C16: "
+        "one that claims to be Hermitian), or a distinct tolerance case" % ((5, 6) if ctx.thorough else (4, 5)))
     ctx.lib(["Gates/CompCheck", "Gates/CompProofs"])
     src = os.path.join(COQ, "props", pid + "c.v")
     forbidden_gate(ctx, src)
@@ -1003,7 +1035,7 @@ def circuit_level(ctx):
         except Exception:
             pass
         if done <= 2:
-            ctx.sample({"circuit": [kinds_of(s)[:6] for s in inp["gates"]], "nq": inp["nq"]})
+            ctx.sample({"circuit": [kinds_of(s)[:6] for s in inp["gates"]], "nq": inp["nq"]}, cap=7)
 
 
 def replay(ctx, pid, data):
